@@ -40,7 +40,9 @@ type Outcome struct {
 	Input   interface{} // replay payload for a violation
 }
 
-func OK(key uint64, sample interface{}) Outcome { return Outcome{Status: Held, Key: key, Sample: sample} }
+func OK(key uint64, sample interface{}) Outcome {
+	return Outcome{Status: Held, Key: key, Sample: sample}
+}
 func Bad(key uint64, input interface{}, format string, a ...interface{}) Outcome {
 	return Outcome{Status: Violated, Key: key, Input: input, Detail: fmt.Sprintf(format, a...)}
 }
@@ -100,7 +102,7 @@ type Property struct {
 	Exhaustive  func(tier string) string // non-empty: description of the finite space enumerated completely
 	Timeout     func(tier string) time.Duration
 	Driver      func(d *DriverCtx) []Outcome // optional process-level phase run by the driver itself
-	Anchors     []string                    // functions whose execution the workload must reach (informational)
+	Anchors     []string                     // functions whose execution the workload must reach (informational)
 }
 
 // DriverCtx is handed to the optional driver-level phase
